@@ -184,11 +184,31 @@ def build(groups=True, media=True, privacy=True, profiles=True, enc=True, top=No
     app = st.getLayer(len(layers) - 1)
     st.setProp("profile", StubProfile())
     mgr = ManagerStub(sessions)
+    st.getProp("profile").axolotl_manager = mgr
     if enc:
-        st.getLayer(1)._manager = mgr
-        for s in st.getLayer(2).sublayers:
-            s._manager = mgr
+        wire_manager(st, mgr)
     return st, bottom, app, mgr
+
+
+def wire_manager(st, mgr):
+    """give every encryption layer of the stack the manager stand-in and make sure it took effect (through the layers' public `manager`)"""
+    layers, i = [], 0
+    while True:
+        try:
+            layers.append(st.getLayer(i))
+        except Exception:
+            break
+        i += 1
+    found = 0
+    for l in layers:
+        for x in [l] + list(getattr(l, "sublayers", ())):
+            if hasattr(x, "_manager") or type(x).__name__.startswith("Axolotl"):
+                x._manager = mgr
+                if getattr(x, "manager", None) is not mgr:
+                    raise core.HarnessOutOfSync("the manager stand-in did not reach %s.manager" % type(x).__name__)
+                found += 1
+    if not found:
+        raise core.HarnessOutOfSync("no encryption layer found in the stack")
 
 
 FLAG_SETS = {
